@@ -499,21 +499,23 @@ def run_sequence(case, want):
 # windows or chunks of up to n steps must not show at any position.
 
 MOTIFS = [
-    # (rain symbols, increment symbols) over 3 steps; 2 = above threshold
-    ((2, 2, 0), (2, 2, 0)),      # one storm, one rise, two steps
-    ((2, 0, 2), (2, 2, 2)),      # two storms under one rise
-    ((2, 2, 2), (2, 0, 2)),      # one storm under two rises
+    # (rain symbols, increment symbols) over 4 steps; 2 = above threshold,
+    # 1 = exactly at it (rain: wet but no storm), 0 = none / falling.  Every
+    # rise ends at a wet sample, so the recession after the motif is clean
+    ((2, 2, 1, 0), (2, 2, 0, 0)),      # one storm, one rise, two steps
+    ((2, 1, 2, 1), (2, 2, 2, 0)),      # two storms under one rise
+    ((2, 2, 2, 1), (2, 0, 2, 0)),      # one storm under two rises
 ]
 _LONG = {}
 
 
 def long_positions(n, around=None):
     if around is None:
-        return list(range(0, n - 4))
+        return list(range(0, n - 5))
     out = set()
     for base in around:
         for m in range(base, n, base):
-            out.update(q for q in range(m - 4, m + 2) if 0 <= q < n - 4)
+            out.update(q for q in range(m - 5, m + 2) if 0 <= q < n - 5)
     return sorted(out)
 
 
@@ -527,7 +529,7 @@ def long_space(n, combo, around=None):
     return Space(
         'load+classify/one motif in a quiet record of %d steps/dt=%d/%s'
         % (n, combo[0], 'every position' if around is None else
-           'positions within 4 steps of the multiples of %s'
+           'positions within 5 steps of the multiples of %s'
            % ' and '.join(map(str, around))),
         len(positions) * len(MOTIFS), decode,
         '3 motifs (storm+rise; two storms under one rise; one storm under '
@@ -554,7 +556,7 @@ def run_long(case, want):
     rain_sym, inc_sym = MOTIFS[case['motif']]
     p = case['pos']
     z = _LONG['levels'][p]
-    for k in range(3):
+    for k in range(4):
         connection.execute(
             'UPDATE rainfall_intensity SET rainfall_intensity_mm_h = ? '
             'WHERE from_epoch = ?',
